@@ -577,6 +577,11 @@ func planC17(t *testing.T, tier string, seed uint64) ([]RunSpec, error) {
 						s.Params["wait_delay_ms"] = []int{1, 5, 40}[(k/6)%3]
 					}
 					s.Sim = swarm(seed, idx)
+					if k%5 == 3 && shape != 7 && shape != 3 {
+						// (not the handshake shape, whose cores spin on each other's writes, nor the shape with
+						// endless loopers next to the failing worker)
+						s.Sim = withPCT(s.Sim, seed, idx)
+					}
 					s.Seed = runSeed(seed, idx)
 					idx++
 					plan = append(plan, s)
